@@ -1272,6 +1272,14 @@ class _Recipes(object):
         add('DiscreteFourierTransform.real_pyfftw', 'real-to-complex', lambda: odl.trafos.DiscreteFourierTransform(
             odl.uniform_discr(0, 1, self.cdsp.shape[0])))
         add('DiscreteFourierTransform', 'pyfftw', lambda: odl.trafos.DiscreteFourierTransform(self.cdsp, impl='pyfftw'))
+        for impl in ('numpy', 'pyfftw'):
+            for hc in (True, False):
+                add('DiscreteFourierTransformInverse', 'real-hc%s-%s' % (hc, impl),
+                    (lambda impl=impl, hc=hc: odl.trafos.DiscreteFourierTransform(
+                        odl.uniform_discr(0, 1, self.cdsp.shape[0]), halfcomplex=hc, impl=impl).inverse))
+                add('DiscreteFourierTransform', 'real-hc%s-%s' % (hc, impl),
+                    (lambda impl=impl, hc=hc: odl.trafos.DiscreteFourierTransform(
+                        odl.uniform_discr(0, 1, self.cdsp.shape[0]), halfcomplex=hc, impl=impl)))
         add('DiscreteFourierTransformInverse', 'cn', lambda: odl.trafos.DiscreteFourierTransform(self.cdsp).inverse)
         add('DiscreteFourierTransformInverse', 'pyfftw', lambda: odl.trafos.DiscreteFourierTransform(self.cdsp, impl='pyfftw').inverse)
         add('FourierTransform', 'cn', lambda: odl.trafos.FourierTransform(self.cdsp))
